@@ -171,6 +171,10 @@ def Acceptor.new : Acceptor := { tmo := Src.tlsDefaultHandshakeTimeoutMs }
 def Acceptor.setTimeout (a : Acceptor) (t : Nat) : Acceptor := { a with tmo := t }
 /-- `impl Clone for Acceptor` (hand-written in every flavour): every field is copied -/
 def Acceptor.clone (a : Acceptor) : Acceptor := { tmo := a.tmo }
+/-- a clone of a clone of … (`n` times): worker copies, combinators that own clones -/
+def Acceptor.clones : Nat → Acceptor → Acceptor
+  | 0, a => a
+  | n + 1, a => (Acceptor.clones n a).clone
 /-- `ServiceFactory::new_service`: the service takes the factory's timeout as it is at that moment (and
 a clone of the thread's counter handle); result = the service's handshake timeout -/
 def Acceptor.newService (a : Acceptor) : Nat := a.tmo
